@@ -64,6 +64,8 @@ def r1_entries_consult_the_mark(w):
         (one('{impl#1}::convert_expr'), 'Expr', 'Binary', 'Binary'),
         (one('{impl#1}::convert_expr'), 'Expr', 'Code', 'CodeBlock'),
         (one('code_misc::{impl#0}::convert_pattern'), 'Pattern', 'Destructuring', 'Destructuring'),
+        (one('code_misc::{impl#0}::convert_pattern'), 'Pattern', 'Parenthesized', 'Parenthesized'),
+        (one('code_misc::{impl#0}::convert_pattern'), 'Pattern', 'Normal', 'FuncCall'),
         (one('::convert_math'), None, None, 'Math'),
         (one('::convert_code_block'), None, None, 'CodeBlock'),
     ]
@@ -78,7 +80,7 @@ def r1_entries_consult_the_mark(w):
         else:
             val = Node('parent', kind)
         res = run_function(w, b, {i: val}, no_inline=no_inline, loop_items=lambda i_, m, f, t: [], max_paths=6000)
-        cons = {'entry': last(b.short), 'node': kind}
+        cons = {'entry': last(b.short), 'node': kind} | ({'variant': '%s::%s' % (en, variant)} if en else {})
         if not res:
             r.bad(cons, '%s|%s|not-evaluated' % (last(b.short), kind), 'entry %s could not be evaluated' % b.short, b.loc())
             continue
@@ -98,11 +100,17 @@ def r1_entries_consult_the_mark(w):
             else:
                 if not edges:
                     # a path that never consulted the mark must not convert anything
-                    if [e for e in converts if 'verbatim' not in e[1] and not e[1].endswith(('convert_comment',))]:
+                    # (handing the node on to the checked expression entry is fine: that entry is evaluated above)
+                    if [e for e in converts if 'verbatim' not in e[1] and not e[1].endswith(('convert_comment', '{impl#1}::convert_expr'))]:
                         bad = 'a path converts the node (%s) without consulting is_format_disabled' % [last(e[1]) for e in converts][:3]
                         break
                 else:
                     seen_false += 1
+        handed_on = all([e for e in ev if e[0] == 'convert'] and all(e[1].endswith('{impl#1}::convert_expr') for e in ev if e[0] == 'convert') and not _disabled_edges(asm)
+                        for (_r, ev, asm) in res)
+        if not bad and handed_on and en == 'Pattern' and variant == 'Normal':
+            r.ok(cons, 'handed on to the checked expression entry on every path')
+            continue
         if not bad and (seen_true == 0 or seen_false == 0):
             bad = 'the mark is not consulted (disabled edge seen %d times, enabled edge %d times)' % (seen_true, seen_false)
         if bad:
